@@ -356,4 +356,75 @@ theorem rot_sound {C Q : Type} (A : QAction Q) (hA : QLawful A) (Mc : Sem (C × 
       simp [MQ, hnm, hg, giOf, hk, hx, hn, hd]
     · cases h1
 
+/-! ### MOV -/
+
+/-- C07's `mov_transfer` for the representative move circuit of a direction, in the form
+`transferLaw` consumes; the `φ` it leaves on the source is `movPhi` -/
+theorem c07_mov (ec : Bool) (seq : List GI) (h : movRep ec = some seq) :
+    ∃ U, circuit 2 seq = some U ∧ isTransfer (movDir ec).1 (movDir ec).2 U = true ∧
+      movPhi ec = phiOf (movDir ec).1 (movDir ec).2 U := by
+  unfold movRep at h
+  cases hf : Gen.nvMov.find? (fun e => if ec then e.1 == 0 else e.2.1 == 0) with
+  | none => rw [hf] at h; cases h
+  | some e =>
+    rw [hf] at h
+    simp only [Option.map_some, Option.some.injEq] at h
+    have hmem : e ∈ Gen.nvMov := List.mem_of_find?_eq_some hf
+    have hp := List.find?_some hf
+    have hok := C07.mov_transfer e hmem
+    rw [h] at hok
+    unfold movOk at hok
+    have hroles : movRoles e.1 e.2.1 = some (movDir ec) ∨ movRoles e.1 e.2.1 = none := by
+      unfold movRoles movDir
+      cases ec with
+      | true =>
+        have h1 : e.1 = 0 := by simpa using hp
+        by_cases h2 : e.2.1 = 0 <;> simp [h1, h2]
+      | false =>
+        have h2 : e.2.1 = 0 := by simpa using hp
+        by_cases h1 : e.1 = 0 <;> simp [h1, h2]
+    rcases hroles with hr | hr
+    · rw [hr] at hok
+      cases hc : circuit 2 seq with
+      | none => rw [hc] at hok; simp at hok
+      | some U =>
+        rw [hc] at hok
+        refine ⟨U, rfl, by simpa using hok, ?_⟩
+        unfold movPhi movRep
+        rw [hf]
+        simp [h, hc]
+    · rw [hr] at hok; simp at hok
+
+/-- the instantiated move template performs the transfer, wherever the transfer is defined -/
+theorem mov_sound {C Q : Type} (A : QAction Q) (hA : QLawful A) (Mc : Sem (C × Q)) {cfg : Cfg}
+    {key : String} (ec : Bool) (rm : TOp → Option Nat) (htie : movTie cfg key ec rm = true)
+    (hlt : ∀ top k, rm top = some k → k < 2)
+    (g : Instr) (ta tb ts : Reg) (ex : List Instr) (hex : useTemplate cfg key g ta tb ts = .ok ex)
+    (ρ : Nat → Nat) (hinj : ∀ i j, i < 2 → j < 2 → ρ i = ρ j → i = j)
+    (regs : Reg → Option Int) (E : Env rm ρ regs ta tb ts) (c : C) (q q' : Q)
+    (htr : A.transfer (movPhi ec) (ρ (movDir ec).1) (ρ (movDir ec).2) q = some q') :
+    RunStraight (MQ A Mc) (serialise ex) ⟨regs, (c, q)⟩ ⟨regs, (c, q')⟩ := by
+  unfold movTie at htie
+  unfold useTemplate at hex
+  cases he : expOf cfg key with
+  | none => rw [he] at htie; cases htie
+  | some body =>
+    rw [he] at htie hex
+    simp only [Bool.and_eq_true, beq_iff_eq] at htie hex
+    obtain ⟨seq, hseq⟩ := Option.isSome_iff_exists.1 htie.1
+    cases hb : instBody g ta tb ts body with
+    | none => rw [hb] at hex; cases hex
+    | some l =>
+      rw [hb] at hex
+      simp only [Except.ok.injEq] at hex
+      subst hex
+      obtain ⟨U, hU, hT, hphi⟩ := c07_mov ec seq (by rw [← htie.2]; exact hseq)
+      have hinj' : ∀ i j, (∃ top, rm top = some i) → (∃ top, rm top = some j) → ρ i = ρ j → i = j := by
+        intro i j ⟨ti, hi⟩ ⟨tj, hj⟩ e
+        exact hinj i j (hlt ti i hi) (hlt tj j hj) e
+      have hrun := run_body A Mc E g hinj' body l seq c q hb hseq
+      rw [hphi] at htr
+      rw [hA.transferLaw seq U _ _ ρ q q' hinj hU hT htr] at hrun
+      exact hrun
+
 end NQ.Tr
